@@ -82,7 +82,7 @@ def run_property(pid, tier="quick", seed=0, jobs=None, only=None):
     if jobs == 1:
         outs = [_task(t) for t in tasks]
     else:
-        with mp.get_context("fork").Pool(jobs) as pool:
+        with mp.get_context("fork").Pool(jobs, maxtasksperchild=1) as pool:
             outs = pool.map(_task, tasks, chunksize=1)
     return {"tasks": outs, "wall_s": time.time() - t0}
 
